@@ -603,7 +603,8 @@ function ser(n) {
       // a listener that was given no path (or `null`: not assignable now) is a no-op
       const rec = CTX && CTX.modelPaths.get(n)
       const eff = Object.keys(ml).filter((k) => !rec || !rec[k] || rec[k].path)
-      if (eff.length) o.model = eff
+      // with the path the listener writes to (the one the generated code passed last)
+      if (eff.length) o.model = eff.map((k) => (rec && rec[k] && rec[k].path ? k + '@' + enc(rec[k].path) : k))
     }
   }
   const ds = n.dataset
